@@ -2482,8 +2482,97 @@ def search(ctx, hints):
                     break
         _sample_files(ctx)
         _oracle_ascii(ctx, sc)
+        _oracle_ascii_text_extras(ctx, sc)
     finally:
         sc.close()
+
+
+def _oracle_ascii_text_extras(ctx, sc):
+    """two families of ASCII OUTPUT4 files written from the format description by the Python encoder of the C04 harness
+    (no Lean, no pyYeti): (1) matrices that announce different number formats or none - full read, every named read =
+    the full read filtered; (2) BIGMAT matrices with ten million rows and more, strings starting on both sides of row
+    10**7 (an 8-digit row number fills its I8 field and abuts the length field): sparse read = the encoded triplets,
+    listing = the read"""
+    from props import c04 as _c04
+    op4 = _op4()
+    rng = ctx.rng
+    for _ in range(ctx.pick(25, 250)):
+        _c04._oracle_mixed_formats(ctx, op4, sc, rng)
+    for _ in range(ctx.pick(6, 40)):
+        _huge_bigmat_ascii(ctx, op4, sc, _gen_huge_bigmat(rng))
+
+
+def _gen_huge_bigmat(rng):
+    R = rng.choice([10 ** 7 + 500, 12345700, 2 * 10 ** 7 + 3, 99999999])
+    cols = []
+    for c in range(rng.randint(1, 3)):
+        starts = sorted(set(rng.sample([5, 9999994, 9999998, 10 ** 7 - 1, 10 ** 7, 10 ** 7 + 1, 12345678 % R, R - 7], rng.randint(1, 4))))
+        strs, last = [], -1
+        for r0 in starts:
+            if r0 <= last or r0 + 3 > R:
+                continue
+            nv = rng.randint(1, 3)
+            vals = [(rng.randint(0, 1), rng.randint(-20, 20), [rng.randint(1, 9)] + [rng.randint(0, 9) for _ in range(rng.randint(0, 6))])
+                    for _ in range(nv)]
+            strs.append((r0, vals))
+            last = r0 + nv
+        if strs:
+            cols.append((c, strs))
+    return {"kind": "huge-bigmat-ascii", "perline": 5, "width": 16, "useD": False, "lead1P": rng.random() < 0.5, "fmtD": False,
+            "lower": False, "single": False, "announce": rng.random() < 0.6,
+            "mats": [{"name": "BIG", "form": 2, "cplx": False, "rows": R, "ncols": 3, "lay": "b", "neg": False, "cols": cols},  # (-R would not fit its I8 field)
+                     {"name": "SMALL", "form": 2, "cplx": False, "rows": 2, "ncols": 1, "lay": "d", "neg": False,
+                      "cols": [(0, [(0, [(0, 0, [1]), (1, 0, [2])])])]}]}
+
+
+def _huge_bigmat_ascii(ctx, op4, sc, case):
+    from props import c04 as _c04
+    case = dict(case, mats=[dict(m, cols=[(c, [(r0, [(v[0], v[1], list(v[2])) for v in vals]) for r0, vals in strs]) for c, strs in m["cols"]])
+                            for m in case["mats"]])
+    if not case["mats"][0]["cols"]:
+        return None
+    text = _c04._py_encode_variant(case)
+    if not case.get("announce", True):
+        out, hdr = [], 0
+        for ln in text.split("\n"):
+            if len(ln) > 40 and ln[32:40].strip() and not ln[:8].strip().lstrip("-").isdigit() is False and ("E16" in ln or "e16" in ln):
+                ln = ln[:40].rstrip()
+            out.append(ln)
+        text = "\n".join(out)
+    p = sc.path(".op4")
+    open(p, "w").write(text)
+    ctx.count("oracle:huge-bigmat-ascii")
+    want = {}
+    for c, strs in case["mats"][0]["cols"]:
+        for r0, vals in strs:
+            for i, (neg, exp, digits) in enumerate(vals):
+                v = float(("-" if neg else "") + str(digits[0]) + "." + "".join(map(str, digits[1:])) + "E%+d" % exp)
+                if v != 0.0:
+                    want[(r0 + i, c)] = v
+    inp = {"kind": "huge-bigmat-ascii", "case": _jsonable_case(case)}
+    try:
+        with warnings.catch_warnings(), _TimeLimit(60):
+            warnings.simplefilter("ignore")
+            dn, ds, df, dt = op4.dir(p, verbose=False)
+            n, X, fo, t = op4.load(p, into="list", sparse=True)
+            n1, X1, _, _ = op4.load(p, into="list", sparse=True, namelist=["small"])
+        A = X[0].tocoo()
+        got = {(int(r), int(c)): float(v) for r, c, v in zip(A.row, A.col, A.data) if v != 0.0}
+        R = case["mats"][0]["rows"]
+        if n != ["big", "small"] or list(dn) != ["big", "small"] or tuple(A.shape) != (R, 3) or [int(x) for x in ds[0]] != [R, 3]:
+            ctx.fail("op4-ascii-bigmat-huge-rows-listing", "names / sizes of a BIGMAT ASCII file with %d rows" % R, inp,
+                     [n, [list(map(int, x)) for x in ds]], [["big", "small"], [[R, 3], [2, 1]]])
+        elif got != want:
+            ctx.fail("op4-ascii-bigmat-huge-rows-values", "sparse read of a BIGMAT ASCII file with %d rows differs from the encoded "
+                     "triplets" % R, inp, sorted(got.items())[:6], sorted(want.items())[:6])
+        elif n1 != ["small"] or np.asarray(X1[0].todense() if hasattr(X1[0], "todense") else X1[0]).tolist() != [[1.0], [-2.0]]:
+            ctx.fail("op4-ascii-bigmat-huge-rows-skip", "the matrix after a skipped BIGMAT ASCII matrix with %d rows is not read" % R,
+                     inp, n1, ["small"])
+    except Exception as e:  # noqa: BLE001
+        ctx.fail("op4-ascii-bigmat-huge-rows-raises", "reading a valid BIGMAT ASCII file whose strings start at row 10**7 and "
+                 "beyond raises", inp, "%s: %s" % (type(e).__name__, str(e)[:160]), "the matrices")
+    finally:
+        os.path.exists(p) and os.remove(p)
 
 
 def _from_json(c):
@@ -2515,6 +2604,17 @@ def replay(ctx, data):
             if x["input"].get("file") == inp["file"]:
                 return x
         return None
+    if inp.get("kind") in ("huge-bigmat-ascii", "mixed-formats"):
+        sc = _Scratch()
+        try:
+            before = len(ctx.failures)
+            if inp["kind"] == "huge-bigmat-ascii":
+                _huge_bigmat_ascii(ctx, _op4(), sc, inp["case"])
+            else:
+                return None  # generated text: re-run the search (the family is reproduced by the same seed)
+            return dict(ctx.failures[-1]) if len(ctx.failures) > before else None
+        finally:
+            sc.close()
     case = _from_json(inp)
     sc = _Scratch()
     try:
